@@ -184,7 +184,7 @@ def build_group(group, repo, log=None):
         return binp
 
 
-FUZZ_GROUPS = {"ring": ["C04", "C09"], "array": ["C14"], "locale": ["C19"], "fileio": ["C17"]}   # clang-only, in-process resettable executors
+FUZZ_GROUPS = {"ring": ["C04", "C09"], "array": ["C14"], "locale": ["C19"], "fileio": ["C17", "C18"]}   # clang-only, in-process resettable executors
 
 
 def build_fuzz(group, repo, log=None):
